@@ -183,8 +183,11 @@ func ndLiteral(name string, nlit int) (interface{}, sql.Type, wide) {
 	return u, types.Uint64, wUint(u)
 }
 
-func nLiteralKinds(kind int) int {
-	if kind == tInt64 || kind == tUint64 || nd.Tier() > 0 {
+// nLiteralKinds: uint64 literals are drawn for the 64-bit column types, and at
+// the thorough tier for every column type as long as the chain has <= 2
+// operations (a third conjunct with both literal kinds does not fit the budget).
+func nLiteralKinds(kind, chain int) int {
+	if kind == tInt64 || kind == tUint64 || (nd.Tier() > 0 && chain <= 2) {
 		return 2
 	}
 	return 1
@@ -255,13 +258,13 @@ func apply(b *sql.MySQLIndexBuilder, col string, op int, key interface{}, keyTyp
 
 // ndOp draws one operation on col, applies it to the builder and returns the
 // reference truth value for the row value p.
-func ndOp(b *sql.MySQLIndexBuilder, name, col string, kind int, p point) bool {
+func ndOp(b *sql.MySQLIndexBuilder, name, col string, nlit int, p point) bool {
 	op := nd.Pick(name, nOps)
 	if op >= opIsNull {
 		apply(b, col, op, nil, nil)
 		return pred(op, p, wide{})
 	}
-	key, keyType, k := ndLiteral(name+".key", nLiteralKinds(kind))
+	key, keyType, k := ndLiteral(name+".key", nlit)
 	apply(b, col, op, key, keyType)
 	return pred(op, p, k)
 }
@@ -322,10 +325,14 @@ func builderOneColumn(id string, kind int) {
 	b := sql.NewMySQLIndexBuilder(nil, idx)
 	_, v := ndColValue("row", kind)
 	p := point{null: nd.Bool("row.null"), v: v}
-	n := nd.IntRange("n", 1, nd.Bound(2, 3))
+	maxN := nd.Bound(2, 3)
+	if kind == tInt64 || kind == tUint64 {
+		maxN = 2
+	}
+	n := nd.IntRange("n", 1, maxN)
 	want := true
 	for i := 0; i < n; i++ {
-		want = nd.And(want, ndOp(b, "op"+string(rune('0'+i)), "t.a", kind, p))
+		want = nd.And(want, ndOp(b, "op"+string(rune('0'+i)), "t.a", nLiteralKinds(kind, n), p))
 	}
 	rc := finish(id, b, idx)
 	got, hits, kindOK := inCollection(rc, []point{p})
@@ -352,8 +359,8 @@ func builderInList(id string, kind int) {
 	b := sql.NewMySQLIndexBuilder(nil, idx)
 	_, v := ndColValue("row", kind)
 	p := point{null: nd.Bool("row.null"), v: v}
-	l1, t1, k1 := ndLiteral("k1", nLiteralKinds(kind))
-	l2, t2, k2 := ndLiteral("k2", nLiteralKinds(kind))
+	l1, t1, k1 := ndLiteral("k1", nLiteralKinds(kind, 2))
+	l2, t2, k2 := ndLiteral("k2", 1)
 	hit := nd.Or(wEQ(p.v, k1), wEQ(p.v, k2))
 	var want bool
 	if nd.Pick("not", 2) == 0 {
@@ -364,7 +371,7 @@ func builderInList(id string, kind int) {
 		want = nd.And(!p.null, !hit)
 	}
 	if nd.Pick("then", 2) == 1 {
-		want = nd.And(want, ndOp(b, "op", "t.a", kind, p))
+		want = nd.And(want, ndOp(b, "op", "t.a", 1, p))
 	}
 	rc := finish(id, b, idx)
 	got, _, kindOK := inCollection(rc, []point{p})
@@ -381,8 +388,8 @@ func builderInList(id string, kind int) {
 	nd.Observe(len(rc), len(clean))
 }
 
-func VerifC03BuilderInListInt8()   { builderInList("c03.inlist.int8", tInt8) }
-func VerifC03BuilderInListUint8()  { builderInList("c03.inlist.uint8", tUint8) }
+func VerifC03BuilderInListInt8()  { builderInList("c03.inlist.int8", tInt8) }
+func VerifC03BuilderInListUint8() { builderInList("c03.inlist.uint8", tUint8) }
 
 // Two-column index (t.a TINYINT, t.b BIGINT): one operation on the first
 // column and optionally one on the second (otherwise the lookup is a prefix
@@ -397,9 +404,9 @@ func VerifC03BuilderTwoColumns() {
 	_, va := ndColValue("rowa", tInt8)
 	_, vb := ndColValue("rowb", tInt64)
 	p := []point{{null: nd.Bool("rowa.null"), v: va}, {null: nd.Bool("rowb.null"), v: vb}}
-	want := ndOp(b, "opa", "t.a", tInt8, p[0])
+	want := ndOp(b, "opa", "t.a", nLiteralKinds(tInt8, 2), p[0])
 	if nd.Pick("second", 2) == 1 {
-		want = nd.And(want, ndOp(b, "opb", "t.b", tInt8, p[1])) // tInt8: int64 literals only
+		want = nd.And(want, ndOp(b, "opb", "t.b", 1, p[1]))
 	}
 	rc := finish(id, b, idx)
 	got, hits, kindOK := inCollection(rc, p)
@@ -497,10 +504,16 @@ func isTrue(v interface{}) bool {
 }
 
 func rangeFilter(id string, kind int) {
-	n := nd.IntRange("n", 1, nd.Bound(2, 3))
+	maxN := nd.Bound(2, 3)
+	if kind == tInt64 || kind == tUint64 {
+		maxN = 2 // six 64-bit keys: the solver stops answering
+	}
+	n := nd.IntRange("n", 1, maxN)
 	nshapes := nd.Bound(13, 16)
-	if n > 1 {
-		nshapes = nd.Bound(5, 16)
+	if n == 2 {
+		nshapes = nd.Bound(5, 8)
+	} else if n == 3 {
+		nshapes = 4
 	}
 	ranges := make([]sql.MySQLRange, n)
 	for i := range ranges {
@@ -561,7 +574,7 @@ func builderThenFilter(id string, kind int) {
 	n := nd.IntRange("n", 1, 2)
 	want := true
 	for i := 0; i < n; i++ {
-		want = nd.And(want, ndOp(b, "op"+string(rune('0'+i)), "t.a", kind, p))
+		want = nd.And(want, ndOp(b, "op"+string(rune('0'+i)), "t.a", nLiteralKinds(kind, n), p))
 	}
 	rc := b.Ranges(nil)
 	field := expression.NewGetField(0, colType(kind), "a", true)
